@@ -1,6 +1,8 @@
 package main
 
 import (
+	"sort"
+	"go/constant"
 	"fmt"
 	"go/types"
 	"os"
@@ -181,63 +183,230 @@ func checkC10(c *Ctx) (string, []string) {
 		[]string{"[]byte payloads are never written in place by host calls (so sharing them is not aliasing of mutable state)", "canonical expression rendering"}
 }
 
-// c10Arms: the context is Y exactly for a system error, OUT_OF_GAS or PANIC, and X otherwise —
-// decided on the type switch of C: every PartialState result (or the context pointer handed
-// to a helper) that is reached behind the "error value" or the OUT_OF_GAS / PANIC test is Y's.
+// c10Arms: the context is Y exactly for a system error, OUT_OF_GAS or PANIC, and X otherwise — decided as a
+// table: C is followed with the dynamic type of its reason argument (and, for an exit reason, its value; for a
+// byte string, its length) valued, and the context the returned partial state, transfers and key-values come from
+// is read off the return reached, through local copies, helper parameters and pointer phis.
 func c10Arms(c *Ctx, f *ssa.Function) {
-	// edges on which the invocation result is known to be an exceptional one
-	exc := condEdges(f, func(v ssa.Value) (bool, bool) {
-		s := abbr(exprStr(v, shapeOpts))
-		switch {
-		case strings.Contains(s, ".(error)#1"):
-			return true, true
-		case strings.Contains(s, "== PVM.OUT_OF_GAS") || strings.Contains(s, "PVM.OUT_OF_GAS ==") || strings.Contains(s, "== PVM.PANIC") || strings.Contains(s, "PVM.PANIC =="):
-			return true, true
+	kv := map[string]int64{}
+	for _, name := range []string{"OUT_OF_GAS", "PANIC", "HALT"} {
+		if k, ok := c.Obj("PVM", name).(*types.Const); ok {
+			if v, exact := constant.Int64Val(k.Val()); exact {
+				kv[name] = v
+			}
 		}
-		for _, name := range []string{"OUT_OF_GAS", "PANIC"} {
-			if k, ok := c.Obj("PVM", name).(*types.Const); ok {
-				kv := k.Val().ExactString()
-				for _, opnd := range []string{"p1", "p1.(PVM.ExitReasonType)#0"} {
-					if s == "("+kv+" == "+opnd+")" || s == "("+opnd+" == "+kv+")" {
-						return true, true
+	}
+	type scen struct {
+		name            string
+		isErr, isExit   bool
+		exit            int64
+		isBytes         bool
+		blen            int64
+		wantExceptional bool
+	}
+	scens := []scen{
+		{name: "system error", isErr: true, wantExceptional: true},
+		{name: "OUT_OF_GAS", isExit: true, exit: kv["OUT_OF_GAS"], wantExceptional: true},
+		{name: "PANIC", isExit: true, exit: kv["PANIC"], wantExceptional: true},
+		{name: "HALT", isExit: true, exit: kv["HALT"]},
+		{name: "another exit kind", isExit: true, exit: 77},
+		{name: "32 returned bytes", isBytes: true, blen: 32},
+		{name: "5 returned bytes", isBytes: true, blen: 5},
+		{name: "0 returned bytes", isBytes: true, blen: 0},
+		{name: "a value of another type"},
+	}
+	bad := ""
+	for _, sc := range scens {
+		var ret *ssa.Return
+		var choice map[*ssa.Phi]ssa.Value
+		r, ok := runWithAtomsChoice(f, shapeOpts, func(s string) (int64, bool) {
+			b := func(x bool) (int64, bool) {
+				if x {
+					return 1, true
+				}
+				return 0, true
+			}
+			switch {
+			case s == "p1.(error)#1":
+				return b(sc.isErr)
+			case s == "p1.(PVM.ExitReasonType)#1":
+				return b(sc.isExit)
+			case s == "p1.([]byte)#1" || s == "p1.(types.ByteSequence)#1" || s == "p1.(internal/types.ByteSequence)#1":
+				return b(sc.isBytes)
+			case s == "p1.(PVM.ExitReasonType)#0":
+				return sc.exit, sc.isExit
+			case strings.HasPrefix(s, "len(p1.(") && strings.HasSuffix(s, ")#0)"):
+				return sc.blen, sc.isBytes
+			}
+			// comparison of the interface value itself with a constant of the exit-reason type
+			for _, v := range kv {
+				for _, form := range []string{"(%d == p1)", "(p1 == %d)"} {
+					if s == fmt.Sprintf(form, v) {
+						return b(sc.isExit && sc.exit == v)
 					}
 				}
 			}
+			return 0, false
+		}, func(in ssa.Instruction, ch map[*ssa.Phi]ssa.Value) {
+			if rr, isR := in.(*ssa.Return); isR {
+				ret, choice = rr, ch
+			}
+		})
+		if !ok || r == nil || ret == nil {
+			bad = sc.name + ": the arm taken is not decided by the dynamic type and value of the reason (conditions: " + strings.Join(condShapes(f), " ; ") + ")"
+			break
 		}
-		return false, false
-	})
-	// uses of a context: loads of fields of ResultContextX / ResultContextY, or their addresses passed on
-	kinds := map[string]bool{}
-	for _, e := range exc {
-		if ifi, ok := e.from.Instrs[len(e.from.Instrs)-1].(*ssa.If); ok {
-			kinds[abbr(exprStr(ifi.Cond, shapeOpts))] = true
+		res := retResults(ret)
+		roots := map[string]bool{}
+		for _, i := range []int{0, 1, 5} {
+			if i < len(res) {
+				roots[c10ContextRoot(res[i], nil, choice, 0)] = true
+			}
+		}
+		want := "ResultContextX"
+		if sc.wantExceptional {
+			want = "ResultContextY"
+		}
+		if len(roots) != 1 || !roots[want] {
+			var got []string
+			for k := range roots {
+				if k == "" {
+					k = "an unrecognised source"
+				}
+				got = append(got, k)
+			}
+			sort.Strings(got)
+			bad = fmt.Sprintf("%s: partial state, transfers and key-values are taken from %s; the collapse selects %s", sc.name, strings.Join(got, " and "), want)
+			break
 		}
 	}
-	okArms := len(kinds) >= 3 // system error, OUT_OF_GAS and PANIC are each tested
-	nX, nY := 0, 0
-	allInstrs(f, func(in ssa.Instruction) {
-		fa, ok := in.(*ssa.FieldAddr)
-		if !ok {
-			return
-		}
-		name := fieldName(fa.X.Type(), fa.Field)
-		if name != "ResultContextX" && name != "ResultContextY" {
-			return
-		}
-		behindExc := guardedBy(f, fa, exc)
-		if name == "ResultContextY" {
-			nY++
-			if !behindExc && !onlyInPhi(fa) {
-				okArms = false
+	c.Check(bad == "", "C10.collapse", "PVM.C · arms", f.Pos(), "the checkpoint context for a system error, OUT_OF_GAS and PANIC, the regular one for HALT, other exit kinds, returned bytes of any length and other values (9/9 rows)", "the collapse does not select Y exactly for error, OUT_OF_GAS and PANIC: "+bad)
+}
+
+// c10ContextRoot: which dimension of the result context a returned value is read from.
+func c10ContextRoot(v ssa.Value, subst map[*ssa.Parameter]ssa.Value, choice map[*ssa.Phi]ssa.Value, d int) string {
+	for i := 0; i < 40 && v != nil && d < 6; i++ {
+		switch x := v.(type) {
+		case *ssa.FieldAddr:
+			if n := fieldName(x.X.Type(), x.Field); n == "ResultContextX" || n == "ResultContextY" {
+				return n
 			}
-		} else {
-			nX++
-			if behindExc {
-				okArms = false
+			v = x.X
+		case *ssa.Field:
+			if n := fieldName(x.X.Type(), x.Field); n == "ResultContextX" || n == "ResultContextY" {
+				return n
 			}
+			v = x.X
+		case *ssa.UnOp:
+			v = x.X
+		case *ssa.Convert:
+			v = x.X
+		case *ssa.ChangeType:
+			v = x.X
+		case *ssa.MakeInterface:
+			v = x.X
+		case *ssa.Alloc:
+			sv := singleStore(x)
+			if sv == nil {
+				return ""
+			}
+			v = sv
+		case *ssa.Phi:
+			e, ok := choice[x]
+			if !ok {
+				return ""
+			}
+			v = e
+		case *ssa.Parameter:
+			a, ok := subst[x]
+			if !ok {
+				return ""
+			}
+			v, subst = a, nil
+		case *ssa.Extract:
+			call, ok := x.Tuple.(*ssa.Call)
+			if !ok {
+				return ""
+			}
+			g := call.Call.StaticCallee()
+			if g == nil || len(g.Blocks) == 0 {
+				return ""
+			}
+			// every return of the helper must agree
+			sub := map[*ssa.Parameter]ssa.Value{}
+			for k, p := range g.Params {
+				if k < len(call.Call.Args) {
+					sub[p] = call.Call.Args[k]
+				}
+			}
+			root := ""
+			okAll := true
+			allInstrs(g, func(in ssa.Instruction) {
+				r, isR := in.(*ssa.Return)
+				if !isR {
+					return
+				}
+				res := retResults(r)
+				if x.Index >= len(res) {
+					return
+				}
+				// the helper's own phis are not on the path followed: only single-valued results are accepted
+				k := c10ContextRootIn(res[x.Index], sub, subst, choice, d+1)
+				if root == "" {
+					root = k
+				} else if k != root {
+					okAll = false
+				}
+			})
+			if !okAll {
+				return ""
+			}
+			return root
+		default:
+			return ""
 		}
-	})
-	c.Check(okArms && nX > 0 && nY > 0, "C10.collapse", "PVM.C · arms", f.Pos(), "the checkpoint context is used only behind the error / OUT_OF_GAS / PANIC tests, the regular context never behind them", "the collapse does not select Y exactly for error, OUT_OF_GAS and PANIC")
+	}
+	return ""
+}
+
+// c10ContextRootIn resolves a value of a helper: its parameters stand for the call's arguments, which are
+// values of the caller (resolved with the caller's own substitution).
+func c10ContextRootIn(v ssa.Value, sub, outer map[*ssa.Parameter]ssa.Value, choice map[*ssa.Phi]ssa.Value, d int) string {
+	for i := 0; i < 40 && v != nil; i++ {
+		switch x := v.(type) {
+		case *ssa.Parameter:
+			a, ok := sub[x]
+			if !ok {
+				return ""
+			}
+			return c10ContextRoot(a, outer, choice, d)
+		case *ssa.FieldAddr:
+			if n := fieldName(x.X.Type(), x.Field); n == "ResultContextX" || n == "ResultContextY" {
+				return n
+			}
+			v = x.X
+		case *ssa.Field:
+			if n := fieldName(x.X.Type(), x.Field); n == "ResultContextX" || n == "ResultContextY" {
+				return n
+			}
+			v = x.X
+		case *ssa.UnOp:
+			v = x.X
+		case *ssa.Convert:
+			v = x.X
+		case *ssa.ChangeType:
+			v = x.X
+		case *ssa.Alloc:
+			sv := singleStore(x)
+			if sv == nil {
+				return ""
+			}
+			v = sv
+		default:
+			return ""
+		}
+	}
+	return ""
 }
 
 // onlyInPhi: the address is computed ahead of the branches and only chosen by a phi.
